@@ -28,7 +28,7 @@ type Case struct {
 	UT     bool        `json:"ut,omitempty"`
 	Mode   int         `json:"mode,omitempty"` // Inv: 0 plain, 1 upper triangular, 2 positive definite
 	InSitu bool        `json:"insitu,omitempty"`
-	InSituA bool       `json:"insitua,omitempty"` // backSubstitution: caller-supplied InSitu.A buffer (identity content)
+	InSituA bool       `json:"insitua,omitempty"` // backSubstitution: caller-supplied InSitu.A buffer (stale content)
 	MskNil bool        `json:"msknil,omitempty"` // no Submatrix option passed (Msk is all true)
 	N      int         `json:"n"`
 	Msk    []bool      `json:"msk,omitempty"`
@@ -180,11 +180,10 @@ func execCase(c Case) (res Result) {
 		if c.InSitu {
 			// caller-supplied buffers holding stale content
 			is := &matrixInverse.InSitu{Id: newMat(c.Dense, dirty(n), n), B: newVec(c.Dense, dirty(n)[0])}
-			if c.Mode != 2 {
-				is.A = newMat(c.Dense, dirty(n), n)
-			} else if c.Dense {
+			is.A = newMat(c.Dense, dirty(n), n) // PositiveDefinite + Submatrix overwrites it (8a0efbb)
+			if c.Mode == 2 && c.Dense {
 				is.Cholesky = cholesky.InSitu{L: newMat(true, dirty(n), n), S: ad.NullFloat64(), T: ad.NullFloat64()}
-			} else {
+			} else if c.Mode == 2 {
 				is.Cholesky = cholesky.InSitu{L: newMat(false, dirty(n), n), S: ad.NullReal64(), T: ad.NullReal64()}
 			}
 			args = append(args, is)
@@ -207,8 +206,15 @@ func execCase(c Case) (res Result) {
 		var x ad.Vector
 		var err error
 		if c.InSituA {
-			is := &backSubstitution.InSitu{A: newMat(c.Dense, identity(n), n)}
+			// caller-supplied coefficient buffer holding stale content (optionally also a stale X)
+			is := &backSubstitution.InSitu{A: newMat(c.Dense, dirty(n), n)}
+			if c.InSitu {
+				is.X = newVec(c.Dense, dirty(n)[0])
+			}
 			x, err = backSubstitution.Run(a, b, is)
+			if err == nil && fmt.Sprint(rowsOf(a)) != fmt.Sprint(c.A) {
+				return Result{Kind: "other:input-modified"}
+			}
 		} else if c.InSitu {
 			is := &backSubstitution.InSitu{X: newVec(c.Dense, dirty(n)[0])}
 			x, err = backSubstitution.Run(a, b, is)
@@ -367,8 +373,8 @@ func coqCases(c Case, r Result, w *CaseWriter) []string {
 			}
 		}
 	case "Inv":
-		out = append(out, fmt.Sprintf("KInv %s %d %d %s %s %s", B(c.Dense), c.Mode, n, bl(c.Msk), fm(c.A), outcome(r.Kind, fm(r.X))))
-		if r.Kind == "ok" && c.Tag != "garbage" && finiteM(r.X) && !(c.Mode == 2 && !prefixMask(c.Msk)) {
+		out = append(out, fmt.Sprintf("KInv2 %s %d %d %s %s %s %s", B(c.Dense), c.Mode, n, B(c.MskNil), bl(c.Msk), fm(c.A), outcome(r.Kind, fm(r.X))))
+		if r.Kind == "ok" && c.Tag != "garbage" && finiteM(r.X) {
 			na, nx := normInf(c.A, c.Msk), normInf(r.X, c.Msk)
 			if na*nx <= condLimit {
 				out = append(out, fmt.Sprintf("KRes %d %s %s %s %s", n, bl(c.Msk), fm(c.A), fm(r.X), Q(resTol(n, na, nx))))
@@ -381,12 +387,8 @@ func coqCases(c Case, r Result, w *CaseWriter) []string {
 		if r.Kind != "ok" {
 			r.B = []float64{}
 		}
-		am := c.A
-		if c.InSituA {
-			am = identity(n) // Run works on the caller's InSitu.A buffer, never on A (model: backsub_run)
-		}
-		out = append(out, fmt.Sprintf("KBS %d %s %s %s %s", n, fm(am), B(c.HasB), FList(c.B), FList(r.B)))
-		if r.Kind == "ok" && c.HasB && !c.InSituA && c.Tag != "garbage" && finiteM([][]float64{r.B}) {
+		out = append(out, fmt.Sprintf("KBS2 %d %s %s %s %s", n, fm(c.A), B(c.HasB), FList(c.B), FList(r.B)))
+		if r.Kind == "ok" && c.HasB && c.Tag != "garbage" && finiteM([][]float64{r.B}) {
 			na := normInf(c.A, allTrue(n))
 			mx := 1.0
 			for _, v := range r.B {
@@ -652,6 +654,7 @@ func genCase(r *Rng) Case {
 		c.HasB = r.Intn(100) < 85
 		c.B = randVec(r, n)
 		c.InSitu = r.Intn(100) < 30
+		c.InSituA = r.Intn(100) < 35
 	case 3:
 		c.Kind = "Det"
 		c.Msk, c.MskNil = allTrue(n), true
